@@ -5,7 +5,7 @@ obligations are re-evaluated under the aliasing property's id)."""
 from __future__ import annotations
 
 from ..run import REGISTRY, Rule
-from . import c01, c02, c04, c06, c08, c09, c10, c11, c13, c17
+from . import c01, c02, c03, c04, c05, c06, c08, c09, c10, c11, c13, c17
 
 ALIASES = [
     # (new id, source rule function, why this property depends on it)
@@ -47,6 +47,13 @@ ALIASES = [
     ("C13.R10", c09.r3, "which entries are skipped as 'not a source file' is decided on the last suffix, as FileLanguage does (= C09.R3)"),
     ("C18.R9", c09.r3, "no spurious 'unsupported command' warnings: the source-file predicate agrees with language detection (= C09.R3)"),
     ("C06.R11", c09.r3, "a file does not silently leave the counted code base because of a second dot in its name (= C09.R3)"),
+    ("C01.R12", c05.r0, "a logical line is a directive iff the space-normalised buffer starts with '#' (= C05.R0)"),
+    ("C01.R13", c04.r1, "macros become visible from the header the compiler would have found (= C04.R1)"),
+    ("C02.R12", c03.r7, "-D definitions evaluate like the corresponding #define (= C03.R7)"),
+    ("C17.R6", c02.r2, "preprocessor conditionals in Fortran files use the same expression grammar (= C02.R2)"),
+    ("C17.R7", c04.r1, "includes in Fortran files resolve as in C files (= C04.R1)"),
+    ("C17.R8", c05.r0, "the first (C) pass classifies directive lines through the same buffer (= C05.R0)"),
+    ("C18.R10", c05.r0, "a directive that is not recognised as one cannot be reported (= C05.R0)"),
     ("C05.R5", c17.r3, "a file is scanned with the line source of its (inherited) language (= C17.R3)"),
 ]
 
